@@ -1442,6 +1442,10 @@ func Run(r *report.Run) int {
 			}
 			seen[sig] = true
 			r.Count("finding:"+sig, 1)
+			if dbg := os.Getenv("VERIF_C12_DEBUG"); dbg != "" && strings.Contains(sig, dbg) { // development aid
+				ba, _ := json.Marshal(map[string]any{"sig": sig, "case": j.lit, "finding": f})
+				fmt.Fprintln(os.Stderr, string(ba))
+			}
 			r.Violation(sig, map[string]any{"case": j.lit, "fingerprint": res.fp, "finding": f, "notes": res.notes})
 		}
 	}
